@@ -12,6 +12,9 @@ TABLE_NOTE = (
     "integers. Exhaustive only inside the stated constants; beyond them seeded random histories."
 )
 
+TEXT_NOTE = (
+    "Trusted: TLC, lxml, the independent ODF white-space reader harness/odftext.py (element-aware reading of ODF 1.2 part 1 section 6.1.2)."
+)
 PKG_NOTE = (
     "Trusted: TLC, zipfile, os.walk, lxml C14N, the digest/identifier assignment in harness/pkg_driver.py and the white-space reader "
     "harness/odftext.py. The meta:generator stamp and zip directory entries are exempt. Flat XML: well-formedness and content inclusion only."
@@ -114,6 +117,64 @@ CHECKS = {
         technique="TLC trace validation of read-only calls (stuttering requirement on the package model)",
         note=PKG_NOTE + " Read-only classification is by name/docstring, kept in harness/pure_driver.py.",
     ),
+    "C05": dict(
+        text="Para.tla transcribes append_plain_text and states the library reader (Decode) and the independent ODF 1.2 part 1 6.1.2 "
+        "white-space processing (Collapse); ParaMC.tla checks RoundTrip and NormalForm for every string over {letters, space, tab, LF} up to the "
+        "bound and every split into appends; every dumped transition is replayed on real Paragraph/Header/Span objects; ParaTrace.tla "
+        "evaluates Decode and Collapse on the node sequence read from the XML of objects built from random rich strings.",
+        ref="DESIGN.md section 4 C05", technique="TLA+ transcription + TLC exhaustive enumeration of strings x splits, replay (MBT), TLC trace validation",
+        note=TEXT_NOTE),
+    "C06": dict(
+        text="Typed.tla: type lattice (bool is an int, datetime is a date); the isinstance dispatch chains are extracted from the working tree "
+        "by AST and checked by TLC (MostSpecificFirst); TypedTrace.tla validates records of values stored in 7 carriers: value type, attribute, "
+        "ODF lexical space (recognisers of Codec.tla), read-back kind, equality direct / after re-parse / after save+reopen.",
+        ref="DESIGN.md section 4 C06", technique="TLC check of source-extracted dispatch chains + TLC trace validation of stored values",
+        note="Trusted: TLC, Python's Decimal/repr for exact comparison of floats (TLA+ has no floating point), the AST extraction in checks/c06.py."),
+    "C09": dict(
+        text="Markup.tla: token model of paragraph content; transcription of the _by_regex_offset decorator, Element._insert, strip_tags, delete; "
+        "MarkupMC.tla checks TextPreserved, WrapsDesignated, NoMatchNoChange, RemovalKeepsOutside for all small layouts x offsets x lengths x "
+        "literal patterns x sequences of insertions; every dumped transition and random histories on API-built paragraphs are validated by "
+        "TLC (MarkupTrace.tla) against the operators and the clauses.",
+        ref="DESIGN.md section 4 C09", technique="TLA+ transcription + TLC exhaustive model check, transitions replayed as traces, TLC trace validation",
+        note=TEXT_NOTE + " Regex engine trusted (literal patterns); offsets count character data in document order."),
+    "C12": dict(
+        text="Registry.tla on RegistryData.tla generated at run time from the working tree (every register call by AST, own tags, PropDef "
+        "properties): tag clashes, own-tag dispatch, duplicated properties, generic property codec; RegistryTrace.tla validates one record per "
+        "instance of every registered class built with generated constructor arguments: same class after re-parse and through 6 access paths, "
+        "equal infoset (C14N), properties equal after re-parse, constructor arguments visible, property set/get.",
+        ref="DESIGN.md section 4 C12", technique="TLC check on source-extracted registry data + TLC trace validation of generated instances",
+        note="Trusted: TLC, lxml C14N, the type-directed argument generator (harness/registry_lib.py); arguments a constructor rejects are dropped."),
+    "C13": dict(
+        text="Styles.tla: dispatch table of insert_style, lookup order of get_style, automatic naming, merge; StylesMC.tla checks RightContainer, "
+        "Unique, FoundAgain, AutoNamesFresh, MergeIsUnionOtherWins over sequences on two documents; dumped transitions replayed on real documents "
+        "holding exactly the model population, random sequences on templates and samples (real populations, bursts of automatic styles, "
+        "set_table_displayed, add_page_break_style, lookups after save+reload) validated by TLC (StylesTrace.tla).",
+        ref="DESIGN.md section 4 C13", technique="TLA+ spec + TLC exhaustive model check, replay (MBT), TLC trace validation",
+        note="Trusted: TLC, the independent XPath/lxml walk of the six containers (harness/styles_lib.py). Names assumed unique per family across containers."),
+    "C14": dict(
+        text="XPathLit.tla: the predicate literal the library builds for a name is a well-formed XPath 1.0 expression denoting exactly that name "
+        "(all names over {a, space, double quote, apostrophe, &, <, [, ], e-acute} up to the bound); TLC's expression is cross-checked with "
+        "lxml's XPath engine; each name is stored with one-edit decoys through 11 setters and looked up through every entry point.",
+        ref="DESIGN.md section 4 C14", technique="TLC exhaustive enumeration of names + replay into every lookup entry point (MBT)",
+        note="Trusted: TLC, lxml XPath. A setter rejecting an identifier puts it outside the quantifier."),
+    "C16": dict(
+        text="ReplaceTrace.tla (on Markup.tla): count = matches inside individual text slots, replace rewrites exactly those spans, markup "
+        "skeleton unchanged, formatted replace keeps the text and is in ODF white-space normal form (Para.tla Collapse), search positions index "
+        "the element's own text; per-slot match spans come from Python's re (TLC recomputes them for literal patterns).",
+        ref="DESIGN.md section 4 C16", technique="TLC trace validation of recorded count/replace/search events against a TLA+ slot model",
+        note=TEXT_NOTE + " The regex engine is trusted on both sides."),
+    "C18": dict(
+        text="Codec.tla: encoders as the library writes, parsers as the xsd/ODF lexical grammars over integers and code points; CodecMC.tla checks "
+        "the inverse and lexical-form laws over boundary lattices and computes the grammar's verdict for every one-character mutant of each "
+        "duration encoding; the tables are replayed into the real codecs both ways; CodecTrace.tla validates random values.",
+        ref="DESIGN.md section 4 C18", technique="TLC lattice enumeration + mutant tables replayed into the code + TLC trace validation",
+        note="Trusted: TLC (32-bit integers: durations up to 20000 days), Python datetime arithmetic for field extraction."),
+    "C20": dict(
+        text="Toc.tla: the counter machine of _header_numbering equals an independent declarative numbering for every level sequence up to the "
+        "bound and every outline level; the listing rule; TLC prints the expected entries, each replayed on a real document (TOC first/middle/"
+        "last, fill once/twice/after an edit, index-body read with lxml) and against the odfdo-headers tool.",
+        ref="DESIGN.md section 4 C20", technique="TLC exhaustive enumeration of heading sequences + replay on real documents (MBT)",
+        note="Trusted: TLC, harness/odftext.py. Outline 0 means no limit; a skipped level counts as an implicit ancestor."),
 }
 
 NOT_YET = "check under construction in this session (no claim yet)"
